@@ -202,7 +202,8 @@ def big_frame_plan(draw, kinds=ALL_FRAME_KINDS, max_cols=3, min_cols=1, prefix="
 
 
 VIAS = ["copy", "deepcopy", "slice_all", "filter_all", "select_all", "rbind_halves", "modify_nothing",
-        "from_pandas", "from_arrow", "parquet", "npz", "pickle", "sorted_by_rid", "left_join_nothing"]
+        "from_pandas", "from_arrow", "parquet", "npz", "pickle", "sorted_by_rid", "left_join_nothing",
+        "marked_by_group_by", "marked_by_group_by", "marked_by_group_by"]
 
 
 @st.composite
